@@ -21,7 +21,8 @@ ASSUMPTIONS = [
     "Reference: props/c08.py::Reference, an integer-femtosecond discrete-event model of the chain circuit and of the testbench "
     "scripts (wake at the first trigger strictly after the current instant; a delay that ends at a clock-edge instant resumes after "
     "that edge's effects; testbenches that wake at one instant run in the order added; tick samples are pre-edge values).",
-    "Only even clock periods are generated (half period exact). A clock with phase 0 has its first edge at time 0 after the "
+    "Odd periods (in femtoseconds) are generated too: the clock rises at its phase and then exactly every period, and falls "
+    "floor(period / 2) after each rise. A clock with phase 0 has its first edge at time 0 after the "
     "testbenches have started (Simulator.advance: all events of a time point take effect before the testbenches run again).",
     "changed()/edge() are awaited on registers only (glitch wake-ups on combinational signals are documented as order-dependent).",
     "No resets are applied.",
@@ -110,7 +111,7 @@ def gen_case(seed, tier):
     fl = stream(seed, "faults")
     w = cfg.choice([2, 3, 4, 6])
     two = cfg.random() < 0.6
-    per = [2, 4, 6, 10, 20, 50, 100, 1000, 10 ** 6, 10 ** 9]
+    per = [2, 4, 6, 10, 20, 50, 100, 1000, 10 ** 6, 10 ** 9, 3, 5, 7, 11, 25, 101, 20833333]    # (48 MHz = 20 833 333 fs)
     p1 = cfg.choice(per)
     p2 = cfg.choice(per) if cfg.random() < 0.7 else p1
     # keep the slow/fast ratio bounded: a 1:1e9 ratio costs 1e9 timeline steps
@@ -240,7 +241,8 @@ class Reference:
 
     # --- time
     def phase(self, d):
-        return d["phase"] if d["phase"] is not None else d["period"] // 2
+        # default: half a period, as add_clock() computes it (Period(fs=p / 2), rounded to an integer)
+        return d["phase"] if d["phase"] is not None else round(d["period"] / 2)
 
     def active_edges_after(self, dom, t):
         """first active edge time strictly greater than t"""
